@@ -42,7 +42,12 @@ def run_one(m, props=None):
     try:
         res = {}
         env = dict(os.environ, XCPV_REPO=s, XCPV_NOEVIDENCE="1", XCPV_CACHE_SUFFIX="mut")
-        for c in (props or m["expect"]):
+        plist = props or m["expect"]
+        if m.get("all_props"):
+            sys.path.insert(0, os.path.join(VERIF, "rules"))
+            import props as P
+            plist = sorted(P.PROPS)
+        for c in plist:
             p = subprocess.run([os.path.join(VERIF, "verif"), "check", c], env=env, cwd=VERIF,
                                stdout=subprocess.PIPE, stderr=subprocess.STDOUT, text=True)
             lines = [l.replace(s + "/", "") for l in p.stdout.splitlines() if l.startswith("  ") or "ERROR" in l]
@@ -51,13 +56,19 @@ def run_one(m, props=None):
         broken = [c for c, r in res.items() if r["rc"] not in (0, 1)]
         want = m.get("expect", [])
         ok = all(c in caught for c in want if c in res) and not broken
+        if m.get("all_props"):
+            ok = not caught and not broken
         return dict(name=m["name"], ok=ok, caught=caught, broken=broken, results=res, detail=m.get("what", ""))
     finally:
         shutil.rmtree(s, ignore_errors=True)
 
 
 def main(argv):
-    spec = json.load(open(SPEC))["mutants"]
+    full = json.load(open(SPEC))
+    spec = full["mutants"]
+    if "--benign" in argv:
+        # behaviour-preserving variants: no check may report anything
+        spec = [dict(m, expect=[], all_props=True) for m in full.get("benign", [])]
     only = None
     prop = None
     jobs = 4
@@ -71,10 +82,10 @@ def main(argv):
         for m in spec:
             print(m["name"], m["expect"], m.get("what", ""))
         return 0
-    sel = [m for m in spec if (not only or m["name"] in only) and (not prop or prop in m["expect"])]
+    sel = [m for m in spec if (not only or m["name"] in only) and (not prop or prop in m["expect"] or m.get("all_props"))]
     bad = 0
     with cf.ThreadPoolExecutor(max_workers=jobs) as ex:
-        for r in ex.map(lambda m: run_one(m, [prop] if prop else None), sel):
+        for r in ex.map(lambda m: run_one(m, [prop] if prop and not m.get("all_props") else None), sel):
             print("%s %-34s caught_by=%s %s" % ("OK  " if r["ok"] else "MISS", r["name"], r.get("caught"), r.get("detail", "")[:70]))
             if not r["ok"]:
                 bad += 1
